@@ -93,6 +93,9 @@ fn c06(rng: &mut Rng, tier: &str, idx: usize) -> Case {
         // populations far beyond the shipped ontology (ln C(N, n) near the f64 range in a naive
         // product), small and mid-sized samples
         let mut c = Case::new("flat-huge");
+        // always: a sample of 86 .. 90 terms from more than 86 858 (C(N, n) leaves the f64 range)
+        c.op(format!("enrichbig {} {} {} {}", *rng.pick(&[87_000u32, 100_000, 120_000, 400_000]), *rng.pick(&[3u32, 6, 40]), rng.range(86, 90), rng.range(1, 3)));
+        c.stat("enrich_ops_huge_population", 1);
         for _ in 0..if tier == "quick" { 2 } else { 4 } {
             let big_n = *rng.pick(&[50_000u32, 87_000, 100_000, 120_000, 200_000, 400_000]);
             let n = *rng.pick(&[10u32, 60, 86, 88, 90, 91, 120, 300, 1000]);
@@ -118,7 +121,7 @@ fn c06(rng: &mut Rng, tier: &str, idx: usize) -> Case {
         levels.push(*rng.pick(&[-750.0f64, -800.0, -1200.0]));
         if tier == "quick" {
             // keep the quick tier short: the deep-subnormal levels always, a sample of the rest
-            levels = vec![-738.0, -741.0, -743.0, -744.0, *rng.pick(&[-706.0f64, -709.0, -725.0, -735.0, -745.0, -30.0, -800.0])];
+            levels = vec![-738.0, -741.0, -743.0, -744.0, -800.0, *rng.pick(&[-706.0f64, -709.0, -725.0, -735.0, -745.0, -30.0, -1200.0])];
         }
         for target in levels {
             // left flank of the mode: the first k (ascending) whose log-pmf reaches the target
@@ -279,7 +282,20 @@ fn c06_hier(rng: &mut Rng) -> Case {
     let (_, inh) = facts_stats(&f, &mut c);
     if with_roots && rng.chance(1, 2) {
         // binary route: terms flagged obsolete / replaced keep their links and annotations
-        let flags = gen_flags(rng, &mut f);
+        let mut flags = gen_flags(rng, &mut f);
+        // always: a directly annotated term (and one with inherited annotations) flagged obsolete
+        for k in 0..3 {
+            if let Some((_, t)) = f.links[k].first().copied() {
+                if t != 1 && t != 118 && !flags.iter().any(|x| x.0 == t) {
+                    flags.push((t, true, None));
+                }
+                if let Some((p, _)) = f.edges.iter().find(|e| e.1 == t && e.0 != 1 && e.0 != 118).copied() {
+                    if !flags.iter().any(|x| x.0 == p) {
+                        flags.push((p, true, None));
+                    }
+                }
+            }
+        }
         c.stat("obsolete_or_replaced_terms", flags.len() as u64);
         let fv = 2 + rng.below(2) as u8;
         facts_to_fops(rng, &f, &flags, fv, 0, true, &mut c);
